@@ -149,7 +149,7 @@ func withConfig(class, kind string, h *keyset.Handle, cfg keyset.Config) error {
 var sampleKeys sync.Map // "kt/kind" -> key.Key (RSA keys are expensive: one per run)
 
 func sampleKey(kt, kind string, p keyfactory.Params) (key.Key, error) {
-	id := kt + "/" + kind
+	id := kt + "/" + kind + "/" + fmt.Sprint(p["variant"])
 	if k, ok := sampleKeys.Load(id); ok {
 		return k.(key.Key), nil
 	}
